@@ -862,8 +862,41 @@ impl Prop for C03 {
                 run_units_in_child(ctx, &units, 0);
             }
             "stream" | "exh" => run_units_in_child(ctx, std::slice::from_ref(case), 0),
+            "inproc" => {
+                // sanitizer legs: same units, in this process (the sanitizer is the crash oracle)
+                for unit in case["units"].as_array().cloned().unwrap_or_default() {
+                    let mut out = UnitOut::new();
+                    run_unit(&unit, &mut out);
+                    merge_unit(ctx, &out.to_json());
+                }
+            }
             _ => ctx.inconclusive(format!("unknown case {case}")),
         }
+    }
+
+    fn sanitizer_cases(&self, seed: u64) -> Vec<Value> {
+        let mut units = Vec::new();
+        // exhaustive alphabet to length 3 after the greeting (1110 streams), codec level
+        for p0 in 0..ALPHA.len() {
+            for p1 in 0..ALPHA.len() {
+                units.push(json!({"kind": "exh", "level": "codec", "p0": p0, "p1": p1, "maxlen": 3}));
+            }
+        }
+        for class in CLASSES {
+            if hostile(class, "DEALER", 0).len() > 5000 {
+                continue;
+            }
+            for stage in [0u64, 2, 3] {
+                units.push(json!({"kind": "stream", "level": "codec", "class": class, "stage": stage, "sub": 0, "chunk": if stage == 3 { 1 } else { 0 }, "seed": seed}));
+            }
+        }
+        for ty in ["PULL", "REP", "PUB", "SUB", "REQ"] {
+            for class in ["cmd_size0", "ready_value_len_ffffffff", "size_2p40", "more_empty_1e3", "random_256", "truncated_valid"] {
+                units.push(json!({"kind": "stream", "level": "socket", "ty": ty, "class": class, "stage": 3, "sub": 0, "seed": seed, "variant": ""}));
+            }
+            units.push(json!({"kind": "stream", "level": "socket", "ty": ty, "class": "ready_then_ready", "stage": 2, "sub": 0, "seed": seed, "variant": "fail_writes_after_ready"}));
+        }
+        vec![json!({"kind": "inproc", "units": units})]
     }
 
     fn floors(&self, tier: Tier) -> Vec<(&'static str, u64)> {
